@@ -213,4 +213,38 @@ PROPS["C07"] = {
     "assumptions": ["I2"],
 }
 
+PROPS["C01"] = {
+    "level_text": "Theorems (Lean 4, client multiplexer and server unary worker-pool transition systems, every label sequence, any number of callers, any pool size): ids are pairwise distinct and every request is written once with its caller's id (ids_injective, request_once, write_carries_own_id); a unary success is always the body of an envelope that carried the call's own id and was read before (no_fabricated_success, owner_only); on the server every reply on the wire is the handler's function of a request that was read, with the request's id, and every request read is taken by exactly one worker, run once and answered at most once (srv_unary_reply_from_request, srv_unary_exactly_once, by a counting invariant); composition over a reliable ordered transport: the bytes a caller gets back are f(its own request), never another call's reply (compose_unary, unary_end_to_end). Negative witness bad_idAlloc (load+store id allocation gives two callers one id). Tied to /repo by 5 flags, the multiplexer and serve skeletons, numRpcWorkers, the Mux trace replay, and scenarios on the real code: 1-16 (64) concurrent callers per connection x 0-64 KiB payloads x forced completion orders of the worker pool (handlers gated and released in a seeded permutation), direct / through a Demux / through a Proxy, both transport kinds, with the pairing monitor and the wire automata.",
+    "level_note": "Trusted: Lean kernel; extractor; harness. The transport is assumed reliable and ordered (what arrived is a prefix of what was written). Exactly-once invocation on the real code is the monitor's count per request.",
+    "technique": "Lean 4 proof (inductive invariants over two transition systems + composition lemma) + regenerated flags/skeletons + trace replay + scenario monitors on the real code",
+    "props": ["Goat.MuxThms", "Goat.Props.C01"],
+    "tie": ["Goat.Tie.C01"],
+    "extra_harness": ["TRACE"],
+    "rule": "one case = one caller in one (topology, transport kind, N, permutation) run; distinct non-trivial = calls with a payload distinct from every other in the run while at least one other call is in flight",
+    "modelled_not_verified": COMMON_MNV,
+    "assumptions": ["through a proxy at most 16 calls are in flight per destination (known finding C16 proxy-drop-above-buffer is outside C01)"],
+}
+PROPS["C05"] = {
+    "level_text": "Theorems (Lean 4, client multiplexer transition system, every label sequence, any number of callers; server connection transition system): stream/call ids allocated on one connection are pairwise distinct (ids_injective) and every envelope a call writes carries its id (write_carries_own_id); a response envelope is delivered only to the call registered under its id, envelopes for unknown ids are dropped without effect (owner_only, unknown_id_dropped, extra_envelopes_harmless); what each call receives is exactly the subsequence of the connection's input with its id, in order, until it unregisters (per_call_order); on the server an envelope is forwarded only to the handler registered under its id (srv_route_by_id). Negative witness bad_idAlloc. Tied to /repo by flags, the multiplexer/processStreamingRpc skeletons, the one-slot channel capacity, the Mux trace replay and: EVERY interleaving of the response sequences of 2 (3) outstanding calls plus stray envelopes fed to the real client (each also a `cliseq` lock-step case decided by the Lean model), 32-64 barrier-released openers with the idsDistinct / ownerOnly wire monitors, 5 000 / 100 000-call histories, and concurrent streams on the server whose handlers check every message's tag.",
+    "level_note": "Trusted: Lean kernel; extractor; harness. Id distinctness is proved for the atomic fetch-and-add the extractor finds in the source (flag idAllocAtomic); 64-bit wrap-around after 2^64 calls is outside the model (Nat ids).",
+    "technique": "Lean 4 proof (inductive invariants over the multiplexer / server transition systems) + regenerated flags/skeletons + exhaustive-interleaving lock-step of the real client against the model + wire monitors",
+    "props": ["Goat.MuxThms", "Goat.ServerConnThms"],
+    "tie": ["Goat.Tie.C05"],
+    "extra_harness": ["TRACE"],
+    "rule": "lock-step cases: one per distinct interleaving (multiset permutation) of the response envelopes of the outstanding calls and strays; alloc/history cases: one per call; non-trivial = at least two calls outstanding",
+    "modelled_not_verified": COMMON_MNV,
+    "assumptions": ["ids are natural numbers in the model (no wrap-around at 2^64)"],
+}
+PROPS["C14"] = {
+    "level_text": "Theorems (Lean 4, every reachable state of the client multiplexer, client stream and server connection transition systems, any number of calls): the client registry holds exactly the calls between register and unregister, and is empty whenever every call has returned - whatever the outcome, including an open whose first write failed (registry_exact, registry_empty_when_idle); the stream's finishing block runs once and unregisters (finishing_block_once, no_output_after_unregister); the server registry holds exactly the streams whose handler has not finished unregistering, unregistering never blocks, and when Serve has returned all are gone (srv_registry_exact, unregister_never_blocks, streams_finished_at_return). Every way ClientConn.newStream (transcribed: Goat/OpenStream.lean) can return has either unregistered itself or handed its one registration to a read loop: failed_open_leaves_nothing, successful_open_owned_by_read_loop, registration_accounted, failed_open_stats_balanced; negative witness bad_openFailureTearsDown (the pre-repair failed open keeps its handler registered for ever). Tied to /repo by flags, the newStream / runStream / unregisterStream / multiplexer skeletons, both trace replays, a lock-step of one real open per outcome (registration refused / opening write refused / accepted) against the newStream model (`openstream`), and long histories on the real code: 10^4 (10^6) RPCs of all four kinds with outcomes ok / handler error / cancel at a random point / pre-cancelled / deadline / server reset (forced) / failed open write / server restart, up to 32 at a time; at every quiescent point (counted hook events balance, no settle time) the client registry count, the server registry size and the goroutine census are compared with the idle values.",
+    "level_note": "Trusted: Lean kernel; extractor; harness; the goroutine census counts goroutines whose stack contains a goat frame. Goroutine exit is proved as 'every goroutine has an enabled own step towards exited and a decreasing measure' (C10/C09 theorems), the census on the real code is the monitor.",
+    "technique": "Lean 4 proof (registry-exactness invariants over three transition systems) + regenerated flags/skeletons + trace replays + resource census at quiescent points of long real histories",
+    "props": ["Goat.MuxThms", "Goat.ClientStreamThms", "Goat.ServerConnThms", "Goat.Props.C14"],
+    "tie": ["Goat.Tie.C14"],
+    "extra_harness": ["TRACE", "TRACESRV"],
+    "rule": "one case = one RPC of a history (kind x outcome) or one failed-open / dead-connection instance; non-trivial = outcome other than plain success, or more than one call in the batch",
+    "modelled_not_verified": COMMON_MNV,
+    "assumptions": ["handlers that never read are sent at most one message (server head-of-line blocking is the C11 known finding)"],
+}
+
 NOT_YET = {}
